@@ -762,6 +762,13 @@ func runC10(c *Ctx) {
 	c10Literals(c, nlit)
 	c10Nested(c, nlit/2)
 	c10CoreMaps(c, boost["core-argument-maps"])
+	// ---- accumulating loops (one contribution per entry) vs the model ----
+	nsite, nconv := 40, 150
+	if c.Thorough {
+		nsite, nconv = 1500, 6000
+	}
+	c10SiteDifferential(c, nsite)
+	c10ConvertDifferential(c, nconv)
 	c10RunProvocations(c, boost)
 }
 
